@@ -31,36 +31,66 @@ PRIM = {"boolean": "TBool", "binary": "TBinary", "bigint": "TBigint", "double": 
 
 # ---- helpers ------------------------------------------------------------------------------------
 
-class _Canon(ast.NodeTransformer):
-    """alpha-rename every Name that is bound inside the snippet (assignment / loop / comprehension / walrus
-    targets), in order of first occurrence, so that renaming a local variable is not a change"""
+def _pure(n) -> bool:
+    """an expression that cannot have side effects or raise on the values the modelled functions see: names, attributes,
+    constants, isinstance(...), not/and/or, comparisons"""
+    for x in ast.walk(n):
+        if isinstance(x, ast.Call):
+            if dotted(x.func) != "isinstance":
+                return False
+        elif not isinstance(x, (ast.Name, ast.Attribute, ast.Constant, ast.UnaryOp, ast.Not, ast.BoolOp, ast.And, ast.Or,
+                                ast.Compare, ast.Is, ast.IsNot, ast.Eq, ast.NotEq, ast.Tuple, ast.Load)):
+            return False
+    return True
 
-    def __init__(self, bound):
-        self.bound = bound
-        self.map = {}
 
-    def visit_Name(self, n):
-        if n.id in self.bound:
-            self.map.setdefault(n.id, f"v{len(self.map)}")
-            return ast.copy_location(ast.Name(id=self.map[n.id], ctx=n.ctx), n)
+class _Equiv(ast.NodeTransformer):
+    """spellings with the same value, brought to one form:
+       len([e for x in it if c]) > 0   ==   any(c for x in it)          (c pure)
+       not all(c for x in it)          ==   any(not c for x in it)      (c pure)"""
+
+    def visit_Compare(self, n):
+        n = self.generic_visit(n)
+        if len(n.ops) == 1 and isinstance(n.ops[0], ast.Gt) and isinstance(n.comparators[0], ast.Constant) \
+                and n.comparators[0].value == 0 and isinstance(n.left, ast.Call) and dotted(n.left.func) == "len" \
+                and len(n.left.args) == 1 and isinstance(n.left.args[0], ast.ListComp):
+            lc = n.left.args[0]
+            if len(lc.generators) == 1 and len(lc.generators[0].ifs) == 1 and not lc.generators[0].is_async \
+                    and _pure(lc.generators[0].ifs[0]) and _pure(lc.elt):
+                g = lc.generators[0]
+                return ast.Call(func=ast.Name(id="any", ctx=ast.Load()),
+                                args=[ast.GeneratorExp(elt=g.ifs[0], generators=[ast.comprehension(
+                                    target=g.target, iter=g.iter, ifs=[], is_async=0)])], keywords=[])
+        return n
+
+    def visit_UnaryOp(self, n):
+        n = self.generic_visit(n)
+        if isinstance(n.op, ast.Not) and isinstance(n.operand, ast.Call) and dotted(n.operand.func) == "all" \
+                and len(n.operand.args) == 1 and isinstance(n.operand.args[0], ast.GeneratorExp):
+            ge = n.operand.args[0]
+            if len(ge.generators) == 1 and not ge.generators[0].ifs and _pure(ge.elt):
+                return ast.Call(func=ast.Name(id="any", ctx=ast.Load()),
+                                args=[ast.GeneratorExp(elt=ast.UnaryOp(op=ast.Not(), operand=ge.elt),
+                                                       generators=ge.generators)], keywords=[])
         return n
 
 
-def _bound_names(nodes):
-    out = set()
-    for node in nodes:
-        for n in ast.walk(node):
-            if isinstance(n, ast.Name) and isinstance(n.ctx, ast.Store):
-                out.add(n.id)
-    return out
-
-
 def canon(nodes) -> str:
-    nodes = [n for n in nodes if not (isinstance(n, ast.Expr) and isinstance(n.value, ast.Constant))]
+    """dump of the statements after vlib.py2v's normalisation (docstrings, comments, annotations, typing.cast, logging
+    statements and `pass` removed, local variables alpha-renamed) and the value-preserving rewrites of _Equiv: two
+    fragments with the same canon differ only in ways that cannot change behaviour"""
     import copy
     nodes = [copy.deepcopy(n) for n in nodes]
-    c = _Canon(_bound_names(nodes))
-    return "\n".join(ast.dump(c.visit(n)) for n in nodes)
+    if len(nodes) == 1 and isinstance(nodes[0], ast.FunctionDef):
+        fn = nodes[0]
+        fn.name, fn.decorator_list = "_f", []
+        norm = py2v.normalize_func(fn, rename_params=True)
+    else:
+        fn = ast.FunctionDef(name="_f", args=ast.arguments(posonlyargs=[], args=[], kwonlyargs=[], kw_defaults=[], defaults=[]),
+                             body=nodes or [ast.Pass()], decorator_list=[], returns=None, type_comment=None)
+        norm = py2v.normalize_func(fn)
+    norm = _Equiv().visit(norm)
+    return ast.dump(norm, include_attributes=False)
 
 
 def canon_src(src: str) -> str:
@@ -322,6 +352,16 @@ A_NAN = {"TDouble": 'return cls(exp.cast(exp.Literal.string("NaN"), exp.DataType
          "TFloat": 'return cls(exp.cast(exp.Literal.string("NaN"), exp.DataType.build("float")))'}
 A_INF = 'return cls(exp.cast(exp.Literal.string(str(value)), exp.DataType.build("double")))'
 INF_LIT_TEST = "isinstance(value, float) and math.isinf(value)"
+NUL_TEST = 'isinstance(value, str) and "\\x00" in value'
+A_STRNUL = '''
+pieces: t.List[exp.Expression] = []
+for i, part in enumerate(value.split("\\x00")):
+    if i:
+        pieces.append(exp.Chr(expressions=[exp.Literal.number(0)]))
+    if part:
+        pieces.append(exp.Literal.string(part))
+return cls(exp.Concat(expressions=pieces))
+'''
 A_TS = '''
 if value.tzinfo is None:
     value = value.isoformat(sep=" ")
@@ -346,9 +386,11 @@ def lit_chain(tree, src):
             cs, g = ["CFloat"], "GNan"
         elif canon([ast.Expr(test)]) == canon_src(INF_LIT_TEST):
             cs, g = ["CFloat"], "GInf"
+        elif canon([ast.Expr(test)]) == canon_src(NUL_TEST):
+            cs, g = ["CStr"], "GNul"
         else:
             cs, g = classes_of(test, "value"), "GAlways"
-        for snippet, act in ((A_STRUCT, "AStruct"), (A_ARRAY, "AArray"), (A_TUPLE, "ATuple"), (A_MAP, "AMap"),
+        for snippet, act in ((A_STRNUL, "AStrNul"), (A_STRUCT, "AStruct"), (A_ARRAY, "AArray"), (A_TUPLE, "ATuple"), (A_MAP, "AMap"),
                              (A_NAN["TDouble"], "ANanCast TDouble"), (A_NAN["TFloat"], "ANanCast TFloat"),
                              (A_INF, "AInfCast"), (A_TS, "ATsCast")):
             if same(b, snippet):
@@ -387,6 +429,7 @@ def column_init(tree, src):
 # ---- functions.lit -------------------------------------------------------------------------------
 
 F_STR = "return Column(expression.Literal.string(value))"
+F_STR_NESTED = "return Column._lit(value)"
 F_INF = "return Column(expression.Literal.string(str(value)))"
 INF_TEST = 'isinstance(value, float) and value in {float("inf"), float("-inf")}'
 
@@ -411,6 +454,8 @@ def litfn_chain(tree, src):
             cs, g = classes_of(test, "value"), "GAlways"
         if same(b, F_STR):
             act = "FStrLit"
+        elif same(b, F_STR_NESTED):
+            act = "FStrNested"
         elif same(b, F_INF):
             act = "FInfStr"
         else:
@@ -458,6 +503,13 @@ return row
 '''
 
 
+CREATE_ROW_PLAIN = '''
+row = Row(*values)
+row.__fields__ = fields
+return row
+'''
+
+
 def tovalue_chain(tree, src, duck_tree, duck_src, types_tree, types_src):
     f = py2v.find_method(tree, "_BaseSession", "_to_value")
     body = strip_doc(f.body)
@@ -489,7 +541,15 @@ def tovalue_chain(tree, src, duck_tree, duck_src, types_tree, types_src):
     for n in types_tree.body:
         if isinstance(n, ast.FunctionDef) and n.name == "_create_row":
             cr = n
-    if cr is None or canon(cr.body) != canon_src(CREATE_ROW):
+    # either spelling: _create_row converts a Decimal member itself (older), or leaves the values alone (then the
+    # Decimal -> float conversion is the VFloat branch of _to_value, which tovalue_chain_ok demands in any case)
+    if cr is None:
+        raise Untranslatable("types._create_row not found")
+    if canon(cr.body) == canon_src(CREATE_ROW):
+        create_row_kind = "positional Row, Decimal members converted to float"
+    elif canon(cr.body) == canon_src(CREATE_ROW_PLAIN) and any(a == "VFloat" for _, _, a in entries):
+        create_row_kind = "positional Row, values as given (Decimal converted by _to_value)"
+    else:
         raise Untranslatable("types._create_row: body changed")
     facts = [
         {"name": "gen_tovalue_chain", "where": f"sqlframe/base/session.py:{f.lineno}-{f.end_lineno}",
@@ -499,7 +559,7 @@ def tovalue_chain(tree, src, duck_tree, duck_src, types_tree, types_src):
         {"name": "try_get_map_shape", "where": f"sqlframe/duckdb/session.py:{tg.lineno}-{tg.end_lineno}",
          "hash": py2v.src_hash(tg, duck_src), "value": "map iff non-empty dict whose entries key and value are lists of equal length, or with a non-str key"},
         {"name": "create_row_shape", "where": f"sqlframe/base/types.py:{cr.lineno}-{cr.end_lineno}",
-         "hash": py2v.src_hash(cr, types_src), "value": "top-level Decimal -> float"},
+         "hash": py2v.src_hash(cr, types_src), "value": create_row_kind},
     ]
     return entries, facts
 
